@@ -1,7 +1,7 @@
 (* C13 -- non-vacuity: concrete histories that satisfy the hypotheses of the theorems of Proofs.CacheTheorems. *)
 From Coq Require Import ZArith List Bool Lia.
 From Model Require Import PyBase Cache.
-From Proofs Require Import CacheProofs CacheWf CacheCopy CacheCoh CacheWorld CacheTheorems.
+From Proofs Require Import CacheProofs CacheWf CacheCopy CacheCoh CacheWorld CacheUnion CacheTheorems.
 Import ListNotations.
 Open Scope Z_scope.
 
@@ -44,3 +44,12 @@ Proof.
   cbv zeta. split; [apply run_W; [apply W_empty | vm_compute; tauto]|]. split; [vm_compute; reflexivity|].
   split; [vm_compute; repeat split; discriminate|]. split; [reflexivity|]. split; vm_compute; reflexivity.
 Qed.
+
+(* ethanol, a copy of it, the copy merged in place (renumbered 4..6), the two parts bonded, a second, copying union *)
+Definition union_history : list op := build_cco ++ [OCopy; OUnion true false; OAddBond 3 4 1; ORead Kcc; OUnion true true].
+Theorem union_example :
+  ops_ok empty_state union_history /\ trace union_history empty_state = repeat None 13 /\
+  (let s := run union_history empty_state in
+   keys (o_atoms (s_cur s)) = [1; 2; 3; 4; 5; 6] /\ List.length (s_others s) = 2%nat /\
+   match s_others s with u :: _ => keys (o_atoms u) = [1; 2; 3; 4; 5; 6; 7; 8; 9] | [] => False end).
+Proof. split; [vm_compute; tauto|]. split; vm_compute; repeat split; reflexivity. Qed.
